@@ -18,6 +18,10 @@ class MachineryError(Exception):
     pass
 
 
+class InjectedSubscriberFailure(Exception):
+    """Raised by a script-installed subscriber that the script marked as raising."""
+
+
 class _LogTap(logging.Handler):
     def __init__(self, world):
         super().__init__(level=logging.DEBUG)
@@ -183,7 +187,7 @@ class World:
                 w.ev("sub_released", who=who)
             if raises:
                 w.ev("sub_raise", who=who)
-                raise RuntimeError("subscriber failure injected by script")
+                raise InjectedSubscriberFailure("subscriber failure injected by script")
 
         if kind == "message":
             async def sub(hdr, msg):
@@ -242,6 +246,12 @@ class World:
             self.ev("skipped", what="resolve")
             return
         self.net.resolve_c(c, op["how"])
+
+    def op_resolve_all(self, op):
+        pend = self.net.pending()
+        for c in pend:
+            self.net.resolve_c(c, op["how"])
+        self.ev("resolved_all", n=len(pend), how=op["how"])
 
     def _tr(self, op):
         return self.net.transport(op.get("c", "last"))
